@@ -9,8 +9,8 @@
    asks the real object, and so does the check (differential against CPython). *)
 From Coq Require Import ZArith List Bool.
 Import ListNotations.
-Require Import PV.Gen.Ops PV.Ops.Dispatch PV.Ops.SeqIndex.
-Require Import PV.Proofs.OpsDispatch PV.Proofs.OpsSeqIndex.
+Require Import PV.Ops.AttrBase PV.Gen.Ops PV.Ops.Dispatch PV.Ops.SeqIndex PV.Ops.Attr.
+Require Import PV.Proofs.OpsDispatch PV.Proofs.OpsSeqIndex PV.Proofs.OpsAttr.
 Local Open Scope Z_scope.
 
 (* ---- generated code meets the arithmetic the proofs rely on ------------- *)
@@ -159,3 +159,99 @@ Proof.
   destruct seq_index_examples as (A & B & C & D & E & F & _). repeat split; assumption.
 Qed.
 Print Assumptions C19_seq_index_nonvacuous.
+
+(* ---- augmented assignment and comparison chains ----------------------------- *)
+
+(* t op= x: the in-place dunder first, then the binary operator; a diagnostic is shown
+   exactly when CPython ends in TypeError (guard: binop_guard, and the in-place method
+   does not raise TypeError itself while the binary operator would work) *)
+Theorem C19_aug_diag_iff_typeerror_partial : forall (O : Type) si rp (i l r : side O),
+  stub_consistent i = true -> stub_consistent l = true -> stub_consistent r = true ->
+  aug_guard si rp i l r = true ->
+  (pa_aug i l r = VDiag <-> py_aug si rp i l r = PTypeError).
+Proof. exact (@aug_diag_iff_typeerror_partial). Qed.
+Print Assumptions C19_aug_diag_iff_typeerror_partial.
+
+Theorem C19_aug_literal_correct : forall (O : Type) si rp (i l r : side O) v,
+  stub_consistent i = true -> stub_consistent l = true -> stub_consistent r = true ->
+  aug_guard si rp i l r = true -> subclass_priority rp l r = false ->
+  pa_aug i l r = VLit v -> py_aug si rp i l r = PVal v.
+Proof. exact (@aug_literal_correct). Qed.
+Print Assumptions C19_aug_literal_correct.
+
+Theorem C19_aug_inplace_raises_refuted :
+  pa_aug raising_side (ok_side 1) missing_side = VLit 1%nat /\
+  py_aug false false raising_side (ok_side 1) missing_side = PTypeError /\
+  inplace_raises_binop_ok raising_side (ok_side 1) missing_side = true.
+Proof. exact aug_inplace_raises_refuted. Qed.
+Print Assumptions C19_aug_inplace_raises_refuted.
+
+Example C19_aug_guard_inhabited :
+  pa_aug missing_side notimpl_side (ok_side 3) = VLit 3%nat /\ py_aug false false missing_side notimpl_side (ok_side 3) = PVal 3%nat /\
+  pa_aug missing_side notimpl_side notimpl_side = VDiag /\ py_aug false false missing_side notimpl_side notimpl_side = PTypeError /\
+  pa_aug (ok_side 9) notimpl_side notimpl_side = VLit 9%nat /\ py_aug false false (ok_side 9) notimpl_side notimpl_side = PVal 9%nat /\
+  aug_guard false false missing_side notimpl_side notimpl_side = true.
+Proof. exact aug_examples. Qed.
+Print Assumptions C19_aug_guard_inhabited.
+
+(* a op1 b op2 c: reported exactly when one of the links, performed on its own, raises *)
+Theorem C19_chain_diag_iff : forall (d1 d2 x1 x2 : bool),
+  (d1 = true <-> x1 = true) -> (d2 = true <-> x2 = true) ->
+  (pa_chain d1 d2 = true <-> py_chain_raises x1 x2 = true).
+Proof. exact chain_diag_iff. Qed.
+Print Assumptions C19_chain_diag_iff.
+
+(* ---- attribute access ------------------------------------------------------- *)
+
+Theorem C19_gen_attr_dispatch :
+  mro_step_order = [SStubNonCallable; SAnnotations; SBaseDict; SStubCallable] /\
+  (forall a b c, fallback_ignores a b c = negb a && (b || c)).
+Proof. exact (conj gen_mro_step_order gen_fallback_ignores). Qed.
+Print Assumptions C19_gen_attr_dispatch.
+
+Definition C19_attr_full_statement : Prop := attr_full_statement.
+
+Theorem C19_attr_full_statement_refuted : ~ C19_attr_full_statement.
+Proof. exact attr_full_statement_refuted. Qed.
+Print Assumptions C19_attr_full_statement_refuted.
+
+(* for any known object (instance, module, class, Enum class), any list of base classes and
+   any order of the lookup steps: an undefined attribute is reported exactly when performing
+   the access raises AttributeError -- provided stubs / annotations / class dicts do not claim
+   an attribute the object lacks, and the missing attribute is not silenced (__getattr__
+   defined, or a configured ignored name) *)
+Theorem C19_attr_diag_iff_raises_partial : forall order o,
+  attr_guard o = true -> (attr_diag order o = true <-> py_attr_raises o = true).
+Proof. exact attr_diag_iff_raises_partial. Qed.
+Print Assumptions C19_attr_diag_iff_raises_partial.
+
+(* for an instance the checker performs the access: no assumption about stubs at all *)
+Theorem C19_attr_instance_exact : forall order o,
+  o_kind o = KInstance -> silenced o = false ->
+  (attr_diag order o = true <-> py_attr_raises o = true).
+Proof. exact attr_instance_exact. Qed.
+Print Assumptions C19_attr_instance_exact.
+
+Theorem C19_attr_known_is_real : forall order o, lookup_attr order o = LKnown -> o_real o = RHas.
+Proof. exact attr_known_is_real. Qed.
+Print Assumptions C19_attr_known_is_real.
+
+(* one refutation per known finding about attributes *)
+Theorem C19_attr_refutations :
+  pa_attr ex_enum_sunder = false /\ py_attr_raises ex_enum_sunder = true /\ claim_faithful ex_enum_sunder = false /\
+  pa_attr ex_getattr_override = false /\ py_attr_raises ex_getattr_override = true /\ silenced ex_getattr_override = true /\
+  pa_attr ex_ignored_name = false /\ py_attr_raises ex_ignored_name = true /\ silenced ex_ignored_name = true.
+Proof. exact attr_refutations. Qed.
+Print Assumptions C19_attr_refutations.
+
+Example C19_attr_guard_inhabited :
+  pa_attr ex_enum_dynamic = true /\
+  pa_attr (mkObs KInstance RRaisesAttr [] false false false false false) = true /\
+  pa_attr (mkObs KInstance RHas [] false false false true false) = false /\
+  pa_attr (mkObs KModule RRaisesAttr [] false false false false false) = true /\
+  pa_attr (mkObs KClass RRaisesAttr [mkBase NoStub false false] false false true false false) = true /\
+  lookup_attr mro_step_order (mkObs KClass RHas [mkBase StubCallable false true] false false true false false) = LKnown /\
+  lookup_attr mro_step_order (mkObs KClass RHas [mkBase StubValue false true] false false true false false) = LStub /\
+  attr_guard ex_enum_dynamic = true.
+Proof. exact attr_examples. Qed.
+Print Assumptions C19_attr_guard_inhabited.
